@@ -29,7 +29,8 @@ FUNCTIONS = [
 BOUNDS = ("skeleton family G (vf/gen.py; only instantaneous actions, no timed effects/goals): 2 objects, fluents b, p(T), w(T):T, n:int "
           "(bounded/unbounded), u:int undefined; one or two actions, <= 3 effects each; <= 2 symbolic numeric leaves per shard in small "
           "windows; plans of 0..2 (quick) / 0..3 (thorough) ground action instances; start times q + r/4 with q a solver integer in "
-          "[0,6], pairwise distinct, every order type")
+          "[0,6] and the residue r in {0,1,2,3} fixed per step by the shard (quick; thorough: every residue by choice variables for plans "
+          "<= 2), pairwise distinct, every order type")
 OUTSIDE = ("longer plans, larger problems, simulated effects, quality metrics, denominators other than 1, 2, 4, "
            "non-distinct start times (excluded by the property)")
 ASSUMPTIONS = ["problems whose initial state violates invariants/bounds are assumed away, as the property states (checked against R per path)",
@@ -37,6 +38,8 @@ ASSUMPTIONS = ["problems whose initial state violates invariants/bounds are assu
                "start times are built as already normalised Fractions (numerator and denominator coprime by construction: "
                "q, (2q+1)/2, (4q+1)/4, (4q+3)/4) so that Fraction's gcd normalisation does not fork; every multiple of 1/4 in the window "
                "is still covered by the four residue classes",
+               "exact engine shim S7 (vf/timeutil.py): a symbolic int compared with +-inf answers the constant (TypeChecker.walk_plus on "
+               "the Plus node the time-triggered validator builds for an increase effect)",
                "validators run with skip_checks=True (the supported-kind test is not the subject)"]
 
 
